@@ -22,6 +22,8 @@ SCRIPTS = {
     "H": [("enter", 0), ("read",), ("exit",)],
     "I": [("set", 0), ("read",)],
     "J": [("read",), ("arith",)],
+    # array-like operands through every operator
+    "K": [("divarr",), ("enter", 0), ("mularr",), ("idivarr",), ("exit",), ("subarr",)],
 }
 
 
@@ -63,6 +65,23 @@ def _task(E, config, h_factory, script, vals, log):
             h = h_factory()
             r = E.attempt(lambda: h + np.asarray([1, 2]))
             log.append(("arith", "refused" if isinstance(r, Raised) else "accepted"))
+        elif op in ("divarr", "mularr", "subarr", "idivarr"):
+            h = h_factory()
+            arr = np.asarray([1, 2])
+
+            def run_arr():
+                if op == "divarr":
+                    return h / arr
+                if op == "mularr":
+                    return h * arr
+                if op == "subarr":
+                    return h - arr
+                g = h
+                g /= arr
+                return g
+
+            r = E.attempt(run_arr)
+            log.append((op, "refused" if isinstance(r, Raised) else "accepted"))
         elif op == "neg":
             h = h_factory()
             r = E.attempt(lambda: h * (-1))
@@ -114,12 +133,12 @@ class C19Schedules(Harness):
     bounds_doc = "2 tasks (quick) / 3 tasks with scripts of 4..7 steps from {enter(v), exit, exit-by-exception, assignment, read, array arithmetic, negative factor} incl. nesting; the values v, the main context's value and the environment default are symbolic / enumerated; the schedule (which task takes the next step) is a symbolic integer sequence forked over all interleavings"
 
     def instances(self, tier):
-        pairs = [("A", "B"), ("C", "D"), ("E", "A"), ("B", "C"), ("F", "G")] if tier == "quick" else list(itertools.combinations_with_replacement("ABCDE", 2)) + [("F", "G"), ("F", "B"), ("G", "E"), ("F", "F")]
+        pairs = [("A", "B"), ("C", "D"), ("E", "A"), ("B", "C"), ("F", "G"), ("K", "I")] if tier == "quick" else list(itertools.combinations_with_replacement("ABCDE", 2)) + [("F", "G"), ("F", "B"), ("G", "E"), ("F", "F"), ("K", "I"), ("K", "B")]
         for a, b in pairs:
             for kinds in (("copy", "copy"), ("copy", "fresh"), ("fresh", "fresh")):
                 if tier == "quick" and kinds == ("fresh", "fresh") and (a, b) != ("A", "B"):
                     continue
-                if tier == "quick" and (a, b) == ("F", "G") and kinds != ("copy", "fresh"):
+                if tier == "quick" and (a, b) in (("F", "G"), ("K", "I")) and kinds != ("copy", "fresh"):
                     continue
                 yield f"sched-{a}{b}-{kinds[0]}-{kinds[1]}", dict(scripts=[a, b], kinds=list(kinds), env="unset")
         if tier != "quick":
@@ -221,7 +240,7 @@ class C19Schedules(Harness):
             for k, (step, (op, got)) in enumerate(zip(SCRIPTS[s], obs["logs"][t])):
                 if op == "read":
                     yield f"read[{t}][{k}]", cx.b(got) == ref[k]
-                elif op == "arith":
+                elif op in ("arith", "divarr", "mularr", "subarr", "idivarr"):
                     yield f"array_operand[{t}][{k}]", z3.BoolVal(got == "accepted") == ref[k]
                 elif op in ("neg", "addneg", "iaddneg", "subover", "setneg"):
                     yield f"negative_content[{t}][{k}]", z3.BoolVal(got == "accepted") == ref[k]
